@@ -59,10 +59,15 @@ public:
     Options opt;
     bool active = false;
     uint64_t steps = 0, switches = 0, preemptions = 0;
+    unsigned spin_rounds = 0;
     unsigned max_threads_seen = 0;
     //! called (on the thread that blocked last) when no thread is runnable. Return normally is
     //! not possible: the handler must end the case (pbt::fatal / pbt::finish_case_early).
     ::std::function<void()> deadlock_handler;
+    //! harness hook: called when a thread releases a mutex through unlock() (not through a
+    //! condition-variable wait), i.e. at the end of a completed critical section, with the
+    //! releasing thread's id. Gives model-based oracles the exact linearisation order.
+    ::std::function<void(const void*, int)> unlock_hook;
 
     static Scheduler& get() {
         static Scheduler s;
@@ -74,8 +79,10 @@ public:
         src = s;
         opt = o;
         steps = switches = preemptions = 0;
+        spin_rounds = 0;
         max_threads_seen = 1;
         deadlock_handler = nullptr;
+        unlock_hook = nullptr;
         auto t = ::std::make_unique<LThread>();
         t->id = 0;
         threads.push_back(::std::move(t));
@@ -117,8 +124,15 @@ public:
                 en[n++] = t->id;
                 if (t->id == current) me_enabled = true;
             }
-        if (!any_fresh)
+        if (!any_fresh && n > 0) {
+            // every runnable thread is spinning (re-reading an unchanged location / yielding). If this
+            // repeats with no real step in between, no thread can ever change the state: livelock.
             for (auto& t : threads) t->yielded = false;
+            if (++spin_rounds > 64) {
+                if (deadlock_handler) deadlock_handler();
+                pbt::fatal("livelock", "all runnable threads spin without progress:" + describe());
+            }
+        }
         if (n == 0) {
             if (deadlock_handler) deadlock_handler();
             pbt::fatal("deadlock", "no runnable thread:" + describe());
@@ -163,6 +177,7 @@ public:
         LThread& me = cur();
         me.yielded = false;
         me.last_was_load = false;
+        spin_rounds = 0;
         // somebody made a real step: spinning threads may look again
         for (auto& t : threads)
             if (t.get() != &me) t->yielded = false;
@@ -199,6 +214,11 @@ inline void note(const char* what, long a = 0, long b = 0) {
     t.note_a = a;
     t.note_b = b;
 }
+
+//! harness instrumentation that touches state shared between logical threads is a shared
+//! operation like any other: it needs a scheduling point in front of it, otherwise no other
+//! thread can ever be observed between the preceding tlx operation and the observation.
+inline void obs(const char* what = "observe") { S().point(what); }
 
 //! RAII: run a scenario under the scheduler
 struct Run {
@@ -242,6 +262,7 @@ public:
         auto& s = S();
         if (!s.active) return;
         s.point("unlock"); // every shared operation has its scheduling point BEFORE it takes effect
+        if (s.unlock_hook) s.unlock_hook(this, s.current);
         release_nopoint();
     }
     int owner() const { return owner_; }
